@@ -231,4 +231,32 @@ theorem poll_plain (a : Api) (hi : Inv a.s) (h : Nat) (hd : Handle) (hh : a.s.hs
   rw [← hg, hb]
   cases b <;> simp [Res.isGuard]
 
+/-- dropping a guard: when the call answers `ok`, the specification's guard for the key is gone, its FIFO and every value unchanged -/
+theorem drop_releases (a : Api) (hi : Inv a.s) (h : Nat) (hd : Handle) (hh : a.s.hs h = some hd) (hst1 : hd.st = .holding)
+    (hos : a.ownedBySusp h = false)
+    (hok : (match (a.exec (.drop h)).2.res with | .ok => True | _ => False)) :
+    absSpec (a.exec (.drop h)).1.s = { absSpec a.s with held := upd (absSpec a.s).held hd.key none } ∧
+    (absSpec a.s).held hd.key = some h := by
+  obtain ⟨m, hm, he⟩ := eeid_inv (hi.live h hd hh)
+  have heo : a.s.entryOf hd = some m := by simp [State.entryOf, hm, he]
+  have hsu : (stamp a.s h).2 = .unit := by simp [stamp, hh, hst1, heo]
+  have hl1 := lin_stamp a.s h hi
+  simp only [evOf, applyEvs, Option.some.injEq] at hl1
+  have hi1 : Inv (stamp a.s h).1 := inv_step a.s (.stamp h) hi
+  have hl2 := lin_release (stamp a.s h).1 h hi1
+  have hk : keyOfH (stamp a.s h).1 h = hd.key := by
+    simp [keyOfH, stamp, hh, hst1, heo, State.setSt, State.setEnt, upd, hkey]
+  unfold Api.exec at hok ⊢
+  simp only [hos, Bool.false_eq_true, ↓reduceIte, Api.dropGuard, hsu] at hok ⊢
+  have hru : (release (stamp a.s h).1 h).2 = .unit := by
+    cases hr : (release (stamp a.s h).1 h).2 <;> rw [hr] at hok <;> first | rfl | cases hok
+  simp only [evOf, hru, ↓reduceIte, applyEvs, hk, applyEv, ← hl1] at hl2
+  have hs' : ∀ w, (({ a with s := (release (stamp a.s h).1 h).1 } : Api).woken w).s = (release (stamp a.s h).1 h).1 := by
+    intro w; cases w <;> rfl
+  simp only [hs']
+  by_cases hheld : (absSpec a.s).held hd.key = some h
+  · simp only [hheld, ↓reduceIte, Option.some.injEq] at hl2
+    exact ⟨hl2.symm, hheld⟩
+  · simp [hheld] at hl2
+
 end Lockable
